@@ -20,6 +20,7 @@ import Ioc.Generated.Facts
 import IocProofs.Lemmas.SemCreate
 import IocProofs.Lemmas.M2IsCode
 import IocProofs.Lemmas.SemFactory2
+import IocProofs.Lemmas.SemDelegate
 namespace Ioc.C03
 open Ioc.M2
 
@@ -257,5 +258,20 @@ theorem C03_code_getEarlyBeanReference (d : Sem.GEB) :
     Go.run (Sem.gebPrims d) Progs.fac_getEarlyBeanReference [.int d.n, .ref d.n 0] [] =
       some (Sem.encMeta d.n (Sem.earlyModel d).1, (Sem.earlyModel d).2) :=
   Sem.getEarlyBeanReference_sem d
+
+/-- the delegate's GetEarlyBeanReference, regenerated (delegate:232-246): the early version handed to holders is the
+    composition, in the order of `componentPostProcessors`, of the GetEarlyBeanReference callbacks of the Smart processors —
+    `Order.getEarlyBeanReference`; without an InstantiationAware processor nobody is asked and the component itself is the early
+    reference.  This is the `early` version of the machine (`C03_code_getEarlyBeanReference` is the factory side). -/
+theorem C03_code_delegate_GetEarlyBeanReference (procs : List Nat) (hasInst : Bool) (isSmart : Nat → Bool)
+    (get : Nat → Nat → Option Nat) (c : Nat) :
+    Go.run (Sem.dgebPrims procs hasInst isSmart get) Progs.del_GetEarlyBeanReference [.str "n", Sem.encC c] [] =
+      some (Sem.encEarlyD (Order.getEarlyBeanReference hasInst isSmart get procs c).2,
+            (Order.getEarlyBeanReference hasInst isSmart get procs c).1) :=
+  Sem.delegateEarlyRef_sem procs hasInst isSmart get c
+
+/-- non-vacuity: two smart processors wrap 5 → 6 → 12, a third (not smart) is skipped -/
+example : Order.getEarlyBeanReference true (fun p => p != 3) (fun p c => some (if p == 1 then c + 1 else c * 2)) [1, 3, 2] 5 =
+    ([1, 2], some 12) := by decide
 
 end Ioc.C03
